@@ -84,12 +84,19 @@ func (b *Blockstore) Has(ctx context.Context, cid cid.Cid) (bool, error) {
 	return has, nil
 }
 
+// errReadOnly is returned by the writing methods of the Blockstore.
+var errReadOnly = errors.New("bitswap/blockstore: EDS backed blockstore is read-only")
+
+// Put is not supported: Blockstore is a read-only view over the EDS store.
+// It returns an error instead of panicking, as the Blockstore is handed to components
+// (e.g. Getter storing the fetched samples) that are free to write into a blockstore.Blockstore.
 func (b *Blockstore) Put(context.Context, blocks.Block) error {
-	panic("not implemented")
+	return errReadOnly
 }
 
+// PutMany is not supported, see Put.
 func (b *Blockstore) PutMany(context.Context, []blocks.Block) error {
-	panic("not implemented")
+	return errReadOnly
 }
 
 func (b *Blockstore) DeleteBlock(context.Context, cid.Cid) error {
